@@ -94,6 +94,30 @@ Definition stmt_conflict_detected : Prop := forall rg d rule_ now t name labels 
               rm_find (lm_keys labels, lm_vals labels) (rn_metrics rn) = None) ->
   get_series rg d rule_ now t name labels help ttl = GConflict rg.
 
+(* handleEvent when a reload lands in the middle of it: the defaults it classifies the event with
+   (d1, read by Exporter.handleEvent) and the defaults the registry takes bucket / quantile options
+   from when it creates the vector (d2, read later by Registry.GetHistogram / GetSummary) may differ.
+   With d1 = d2 this is Model/Exporter.v's handle_event. *)
+Definition handle_event2 (d1 d2 : defaults) (now : Z) (x : exporter) (e : event)
+           (mapped : option (rule * bytes * lmap)) : hres :=
+  let rg := x_registry x in
+  match classify d1 (x_tel x) e mapped with
+  | DDone tel => HOk {| x_registry := rg; x_tel := tel |}
+  | DUpdate tel1 t name labels help ttl rule_ upd =>
+    match get_series rg d2 rule_ now t name labels help ttl with
+    | GPanic => HPanic
+    | GConflict rg' => HOk {| x_registry := rg'; x_tel := tl_conflict tel1 (type_string (e_kind e)) name |}
+    | GOk rg' n vk vals =>
+      match update_series rg' n vk vals upd with
+      | Ok rg'' => HOk {| x_registry := rg''; x_tel := tl_event tel1 (type_string (e_kind e)) |}
+      | Panic => HPanic
+      end
+    end
+  end.
+
+Definition stmt_handle_event2_same : Prop := forall d now x e mapped,
+  handle_event2 d d now x e mapped = handle_event d now x e mapped.
+
 (* ---------- C02 / C19: nothing in the pipeline panics ---------- *)
 Section Run.
 Variable pf : bytes -> F64 * bool.
@@ -121,18 +145,20 @@ Definition final_sys (s : sys CS) (ops : list op) : sys CS :=
 
 (* C19 / C14, an event that overlaps a reload.  Exporter.handleEvent asks the mapper twice
    (GetMapping, then GetDefaults; two critical sections), so the rule an event was matched by may
-   belong to one configuration and the defaults it is handled with to another.  Whatever moments
-   of the system's life the rule (sA), the defaults (sB) and the registry (s) are taken from,
-   handling the event does not panic. *)
+   belong to one configuration and the defaults it is handled with to another; the registry reads
+   the defaults once more when it creates a vector (a third section).  Whatever moments of the
+   system's life the rule (sA), the two readings of the defaults (sB, sC) and the registry (s) are
+   taken from, handling the event does not panic. *)
 Definition stmt_event_across_reload_no_panic : Prop :=
-  forall f cache t0 opsA opsB ops l evs t e,
+  forall f cache t0 opsA opsB opsC ops l evs t e,
   let sA := final_sys (init f cache t0) opsA in
   let sB := final_sys (init f cache t0) opsB in
+  let sC := final_sys (init f cache t0) opsC in
   let s := final_sys (init f cache t0) ops in
   line_to_events pf f l = Ok (evs, t) -> In e evs ->
   let rm := get_mapping uni_word re_match CS c_get c_add (s_mapper CS sA) (e_name e) (type_string (e_kind e)) in
   let mapped := match fst rm with Some mr => lookup_rule CS (snd rm) mr | None => None end in
-  handle_event (m_defaults CS (s_mapper CS sB)) (s_now CS s) (s_exp CS s) e mapped <> HPanic.
+  handle_event2 (m_defaults CS (s_mapper CS sB)) (m_defaults CS (s_mapper CS sC)) (s_now CS s) (s_exp CS s) e mapped <> HPanic.
 
 (* ---------- C03: every scrape succeeds ---------- *)
 (* names the binary's own collectors occupy (known finding: a client metric using one of them) *)
